@@ -8,6 +8,10 @@ for d in sorted(glob.glob('/verif/seeded/*')):
     checks = ev.get('checks', {})
     verdict = '; '.join(f"{c}: {v['verdict']}" + (f" ({v['fingerprints'][0].split('=')[1].split(' ')[0]})" if v.get('fingerprints') else '') for c, v in checks.items())
     hist = m.get('history', '')
+    rc = m.get('recheck', {})
+    if rc.get('checks'):
+        now = '; '.join(f"{c}: {v['verdict']}" + (f" ({v['fingerprints'][0].split('=')[1].split(' ')[0]})" if v.get('fingerprints') else '') for c, v in rc['checks'].items())
+        verdict = f"first evaluation: {verdict}; current checks (/verif {rc.get('verif_commit')}): {now}"
     rows.append((os.path.basename(d), m.get('property'), (m.get('summary') or '')[:160].replace('|', '/').replace('\n', ' '), (m.get('needs') or '')[:140].replace('|', '/').replace('\n', ' '), verdict, hist))
 print('| seed | property | change | needs | result (quick tier) | note |')
 print('|---|---|---|---|---|---|')
